@@ -40,10 +40,11 @@ StepLayout(e) ==
                  model_pinned_only |-> IF pin /\ ~fix /\ ~crl THEN 1 ELSE 0, model_fixed_only |-> IF fix /\ ~pin /\ ~crl THEN 1 ELSE 0,
                  model_crlf_only |-> IF crl /\ ~fix THEN 1 ELSE 0])
 \* a library call of this case panicked: the property promises a result for every input of its domain
+StepTall(e) == e.ev = "tall" /\ Report(e.case, TallFails(e), [lh |-> e.lh, pos |-> e.pos, ret |-> e.ret, ys |-> [j \in 1..Len(e.lines) |-> e.lines[j].y]])
 StepPanic(e) == e.ev = "panic" /\ Report(e.case, {"library_call_panicked"}, [msg |-> e.msg, loc |-> e.loc])
 
 Next == /\ l <= NRec
-        /\ LET e == Rec[l] IN StepCase(e) \/ StepLayout(e) \/ StepPanic(e)
+        /\ LET e == Rec[l] IN StepCase(e) \/ StepLayout(e) \/ StepTall(e) \/ StepPanic(e)
         /\ l' = l + 1
 Spec == Init /\ [][Next]_l
 
